@@ -206,7 +206,7 @@ def _case_inslive(ctx, c, mo, tmp):
 def _case_cbs(ctx, ln, b, num, den, fr, sample=False):
     canon = L.run_cbs(ln, b, fr if (num, den) != (1, 10) else None)
     case = {"kind": "cbs", "len": ln, "b": b, "frac": [num, den]}
-    if (num, den) == (1, 10):
+    if (num, den) == (1, 10) or num * 10 <= den:
         L.oracle_cbs(ctx, ln, b, canon, case)
     ctx.case(("cbs", ln, b, num, den), b >= 2, case if sample else None, kind="check_batch_size:" + canon.split()[0])
     return f"term cbs {ln} {b} {num} {den}", canon, case
@@ -455,6 +455,9 @@ def sweep(ctx, full=False):
             _run(ctx, "std", labels, [spec], seed0)
     for name, lab, spec in (S.all_singles(S.INS_OPTIONS) if base_ok["ins"] else []) + S.all_singles(S.INS_INVALID):
         _run(ctx, "ins", [f"{name}:{lab}"], [spec], seed0)
+    if base_ok["ins"]:
+        for name, lab, spec in S.all_singles(S.INS_REAL_OPTIONS):
+            _run(ctx, "ins", [f"{name}:{lab}", "real-flows"], [spec, dict(init=dict(max_iteration=2))], seed0, fake_flows=False)
     if full:
         # second seed for the singles; pairwise arrays; a few importance-sampler runs with real neural flows
         for name, lab, spec in std:
